@@ -80,8 +80,82 @@ func genC26(seed int64, tier string, emit func(run.Case)) {
 		if o.Hostile {
 			kind = "hostile"
 		}
+		if i%3 == 2 {
+			// shapes NAMED after reserved keywords (quoted in the source), as connection endpoints,
+			// at the top level and nested: lookups that treat the last path element as a keyword
+			// resolve them to the wrong object
+			text, kind = c26KeywordDiagram(q), "keyword-names"
+		}
 		emit(run.MkCase(fmt.Sprintf("c%06d", i), kind, textCase{Text: text, Src: kind}))
 	}
+}
+
+var c26KeywordNames = []string{"label", "shape", "icon", "tooltip", "link", "near", "width", "height", "direction", "top", "left",
+	"grid-rows", "grid-columns", "grid-gap", "class", "classes", "vars", "style", "layers", "scenarios", "steps", "constraint",
+	"opacity", "stroke", "fill", "fill-pattern", "stroke-width", "border-radius", "font", "font-size", "font-color", "bold", "italic",
+	"shadow", "multiple", "3d", "animated", "filled", "double-border", "text-transform", "source-arrowhead", "target-arrowhead"}
+
+// c26KeywordDiagram builds a small diagram whose shapes are named after reserved keywords
+// (double-quoted, which makes them ordinary names), mixed with plain and case-variant names,
+// nested up to two levels, connected by edges written with absolute paths. A statement is
+// kept only if the program still compiles (the compiler rejects a few of these names).
+func c26KeywordDiagram(r *gen.R) string {
+	name := func() string {
+		switch r.Weighted(6, 2, 1) {
+		case 0:
+			return gen.Quote(gen.Pick(r, c26KeywordNames))
+		case 1:
+			return gen.Name(r, false, 8)
+		}
+		return gen.Quote(r.RandCase(gen.Pick(r, c26KeywordNames)))
+	}
+	cur := ""
+	try := func(stmt string) bool {
+		if _, _, err := compile(cur + stmt + "\n"); err != nil {
+			return false
+		}
+		cur += stmt + "\n"
+		return true
+	}
+	var paths []string
+	for i, n := 0, r.Range(2, 4); i < n; i++ {
+		p := name()
+		if try(p + ": " + gen.Quote(gen.Name(r, false, 6))) {
+			paths = append(paths, p)
+		}
+	}
+	for c, nc := 0, r.Range(1, 2); c < nc; c++ {
+		cont := name()
+		if r.P(0.5) {
+			cont = gen.Name(r, false, 6)
+		}
+		for i, n := 0, r.Range(1, 3); i < n; i++ {
+			p := cont + "." + name()
+			if try(p + ": " + gen.Quote(gen.Name(r, false, 6))) {
+				paths = append(paths, p)
+				if r.P(0.3) {
+					pp := p + "." + name()
+					if try(pp) {
+						paths = append(paths, pp)
+					}
+				}
+			}
+		}
+	}
+	if len(paths) >= 2 {
+		for i, n := 0, r.Range(2, 6); i < n; i++ {
+			a, b := gen.Pick(r, paths), gen.Pick(r, paths)
+			if a == b || strings.HasPrefix(a, b+".") || strings.HasPrefix(b, a+".") {
+				continue
+			}
+			st := a + " " + gen.Pick(r, gen.Arrows) + " " + b
+			if r.P(0.4) {
+				st += ": " + gen.Quote(gen.Name(r, false, 6))
+			}
+			try(st)
+		}
+	}
+	return cur
 }
 
 // ---------------------------------------------------------------------------------------
@@ -181,7 +255,8 @@ func c26Rho(g *d2graph.Graph) []string {
 	}
 	out = append(out, fmt.Sprintf("rootLevel=%d", g.RootLevel))
 	for i, o := range g.Objects {
-		p := fmt.Sprintf("obj[%d:%s]", i, o.AbsID())
+		p := fmt.Sprintf("obj[%d]", i)
+		out = append(out, p+".absid="+o.AbsID())
 		par := "<none>"
 		if o.Parent != nil {
 			par = o.Parent.AbsID()
@@ -201,7 +276,8 @@ func c26Rho(g *d2graph.Graph) []string {
 		c26Walk(reflect.ValueOf(o), p, &out)
 	}
 	for i, e := range g.Edges {
-		p := fmt.Sprintf("edge[%d:%s]", i, e.AbsID())
+		p := fmt.Sprintf("edge[%d]", i)
+		out = append(out, p+".absid="+e.AbsID())
 		src, dst := "<nil>", "<nil>"
 		if e.Src != nil {
 			src = e.Src.AbsID()
@@ -215,7 +291,7 @@ func c26Rho(g *d2graph.Graph) []string {
 	return out
 }
 
-// c26FieldOf extracts the field path of a ρ line ("obj[3:a.b].Attributes.Direction.Value=…" →
+// c26FieldOf extracts the field path of a ρ line ("obj[3].Attributes.Direction.Value=…" →
 // "obj.Attributes.Direction.Value") for signatures.
 func c26FieldOf(line string) string {
 	if i := strings.Index(line, "="); i >= 0 {
@@ -286,9 +362,45 @@ func c26RoundTrip(res *run.Result, viol func(clause, sig, msg string), g *d2grap
 	for _, o := range g.Objects {
 		inGraph[o] = true
 	}
+	// endpoint identity: an edge of the new graph must point at THE object of the new graph
+	// that stands where the original endpoint stands (same index in Objects), not merely at
+	// something whose id string looks right
+	objIndex := map[*d2graph.Object]int{}
+	for i, o := range g.Objects {
+		objIndex[o] = i
+	}
+	sameObj := func(orig, got *d2graph.Object) bool {
+		if orig == g.Root {
+			return got == g2.Root
+		}
+		i, ok := objIndex[orig]
+		return !ok || got == g2.Objects[i]
+	}
 	var keep1, keep2 []*d2graph.Edge
 	for i, e := range g.Edges {
 		e2 := g2.Edges[i]
+		if e.Src != nil && e.Dst != nil && e2.Src != nil && e2.Dst != nil {
+			res.Inc("endpoint_identity_checked")
+			for _, ep := range []struct {
+				which     string
+				orig, got *d2graph.Object
+			}{{"src", e.Src, e2.Src}, {"dst", e.Dst, e2.Dst}} {
+				if !sameObj(ep.orig, ep.got) {
+					cls := "other-name"
+					if _, kw := d2ast.ReservedKeywords[strings.ToLower(ep.orig.ID)]; kw {
+						cls = "endpoint-named-like-reserved-keyword"
+					}
+					to := "another object"
+					if ep.got == g2.Root {
+						to = "the root"
+					} else if ep.orig.Parent != nil && ep.got.AbsID() == ep.orig.Parent.AbsID() {
+						to = "the endpoint's parent"
+					}
+					viol("C26.roundtrip-endpoint-identity", "C26.roundtrip-endpoint-identity:"+stage+":"+cls,
+						fmt.Sprintf("edge %d: %s %q comes back attached to %s (%q) (%s)\n%s", i, ep.which, ep.orig.AbsID(), to, ep.got.AbsID(), stage, text))
+				}
+			}
+		}
 		if e.Src == nil || e.Dst == nil {
 			res.Inc("edges_with_nil_endpoint_before_roundtrip")
 			continue
